@@ -19,7 +19,7 @@ RULE = (
     "the driver encodes into an exactly sized buffer placed flush against a PROT_NONE page (both placements: before the "
     "upper guard, after the lower guard) and decodes from such a buffer into an exactly sized struct; integer leaves are "
     "loaded with arbitrary full-width storage patterns. Oracles: (1) BYTES_LENGTH_* macro, Python BYTES_LENGTH == "
-    "ceil(N/8); (2) no trap, no canary change, no sanitizer report, input buffer unchanged by decode; (3) containment: "
+    "ceil(N/8), Go BYTES_LENGTH_* constant and Size() == ceil(N/8); (2) no trap, no canary change, no sanitizer report, input buffer unchanged by decode; (3) containment: "
     "encode(v with leaves overdriven) == reference encode(v reduced mod 2^n). Part 'py': same containment for the Python "
     "encoder with arbitrary (huge / negative) integers. evaluations = fenced operations. Non-trivial: total bits not a "
     "multiple of 8, or last leaf reaches a word copy (width+offset >= 16), or an overdriven leaf that is not the last "
@@ -29,9 +29,9 @@ ASSUMPTIONS = [
     "ref.py is the specification (value taken modulo 2^n is what 'low n bits' means)",
     "bool members hold 0/1 and enum members hold declared values (only integer leaves are overdriven, as the property states)",
     "x86-64, 4 KiB pages; ASan/UBSan of clang 14 / gcc 12; -fno-sanitize=alignment as the property excludes alignment",
-    "Go size constants are compared in C19 (needs the Go interpreter)",
+    "Go BYTES_LENGTH_* constants and Size() literals are read from the parsed Go file (bpverif.gointerp parser)",
 ]
-REQUIRED_LABELS = ["cfg:san", "cfg:guard", "cfg:opmode", "overdriven", "total_not_mult8", "batch_array"]
+REQUIRED_LABELS = ["cfg:san", "cfg:guard", "cfg:opmode", "cfg:go-size", "overdriven", "total_not_mult8", "batch_array"]
 
 
 @dataclass
@@ -223,12 +223,54 @@ def run_c(case: Case, stats: Stats) -> None:
         stats.sample({"build": cfg.tag(), "opmode": opmode, "message": msgs[-1].name, "nbits": ref.nbits(msgs[-1]), "raw_leaves": [hex(x) for x in case.raws[[i for i in case.raws][-1]][0][:12]]})
 
 
+def go_size_constants(src: str) -> Dict[str, Any]:
+    """BYTES_LENGTH_* constants and Size() literals of a generated Go file (parsed, not executed)."""
+    from ..gointerp import nodes as gn, parse_file
+
+    f = parse_file(src)
+    consts: Dict[str, int] = {}
+    sizes: Dict[str, int] = {}
+    for d in f.decls:
+        if isinstance(d, gn.ConstSpec):
+            for n, v in zip(d.names, d.values or []):
+                name = n.name if hasattr(n, "name") else str(n)
+                if name.startswith("BYTES_LENGTH_") and isinstance(v, gn.BasicLit):
+                    consts[name] = int(v.value)
+        elif isinstance(d, gn.FuncDecl) and d.recv is not None and (d.name.name if hasattr(d.name, "name") else str(d.name)) == "Size":
+            t = d.recv.type
+            while isinstance(t, (gn.StarExpr, gn.ParenExpr)):
+                t = t.x
+            rn = t.name if hasattr(t, "name") else str(t)
+            st0 = d.body.stmts[0] if d.body and d.body.stmts else None
+            if isinstance(st0, gn.ReturnStmt) and st0.results and isinstance(st0.results[0], gn.BasicLit):
+                sizes[rn] = int(st0.results[0].value)
+    return {"consts": consts, "sizes": sizes}
+
+
+def check_go_sizes(case: Case, cu: Any, stats: Stats) -> None:
+    import os
+
+    godir = cu.render_all("go")
+    for f in case.unit.files:
+        info = go_size_constants(open(os.path.join(godir, f.base + "_bp.go")).read())
+        from ..model import iter_messages
+
+        for m in iter_messages(f):
+            sn = ref.go_struct_name(m)
+            cn = "BYTES_LENGTH_" + ref.upper_snake(sn)
+            stats.evaluations += 1
+            if info["consts"].get(cn) != ref.nbytes(m) or info["sizes"].get(sn) != ref.nbytes(m):
+                raise Violation(f"Go size constant {cn}={info['consts'].get(cn)} / {sn}.Size()={info['sizes'].get(sn)}, ceil(N/8)={ref.nbytes(m)}", signature="go-bytes-length")
+    stats.count("cfg:go-size")
+
+
 def run_py(case: Case, stats: Stats) -> None:
     with gen.Compiled(case.unit) as cu:
         try:
             mods = cu.load_python()
         except Exception as e:
             raise Violation(f"valid schema could not be compiled: {type(e).__name__}: {e}", signature=f"compile:{type(e).__name__}")
+        check_go_sizes(case, cu, stats)
         digest = cases.unit_digest(cu.texts)
         allm = unit_messages(case.unit)
         for i, m in enumerate(allm):
